@@ -80,6 +80,11 @@ def showOut : Out → String
   | .up => "up"
   | .down => "down"
   | .reject c => s!"reject {c}"
+  | .gotNotification c => s!"ghost {c}"
+
+def visible : Out → Bool
+  | .gotNotification _ => false
+  | _ => true
 
 def showPc : Pc → String
   | .backoff => "backoff" | .done => "done" | .passiveWait => "passiveWait" | .connecting => "connecting"
@@ -108,7 +113,7 @@ def sessionLine (s : State) (ws : List String) : State × String :=
     | _, _, _, _, _ => bad
   | "ev" :: rest =>
     match event? rest with
-    | some e => let r := step s e; (r.1, joinWith ";" (r.2.map showOut))
+    | some e => let r := step s e; (r.1, joinWith ";" ((r.2.filter visible).map showOut))
     | none => bad
   | ["state"] =>
     let c := match s.conn with
